@@ -240,7 +240,8 @@ Proof.
   destruct l; step_inv H; cbn [wts udrop set_w set_p set_wts remove_entry] in *;
     intros Hu i'; bool_hyps; try rewrite notify_idle; auto; try congruence;
     try (match goal with Hw : wts s ?i = _ |- _ =>
-           specialize (Hd Hu i); rewrite Hw in Hd; discriminate Hd end).
+           specialize (Hd Hu i); rewrite Hw in Hd; discriminate Hd end);
+    try (unfold upd; destruct (Nat.eqb_spec i' i); [reflexivity|auto]).
   destruct (Nat.lt_ge_cases i' (nw s)) as [Hlt|Hge].
   - rewrite forallb_forall in H0. apply H0, in_seq. lia.
   - now rewrite (Hn _ Hge).
@@ -564,7 +565,8 @@ Proof.
       try (match goal with Hw : wts _ ?i = _ |- _ =>
              specialize (Hidle i); rewrite Hw in Hidle; discriminate Hidle end);
       try (match goal with Hw : wc (pss _ ?e) = _, Hlt : ?e < nps _ |- _ =>
-             specialize (Hh e Hlt); rewrite Hw in Hh; discriminate Hh end).
+             specialize (Hh e Hlt); rewrite Hw in Hh; discriminate Hh end);
+      try (refine (conj Hu (conj eq_refl (conj Hh _))); intros; reflexivity).
     all: refine (conj Hu (conj eq_refl (conj _ _))); intros e' He'; unfold upd;
       destruct (Nat.eqb_spec e' e); try subst e'; auto;
       try (destruct (Nat.eqb_spec e e'); [congruence|auto]);
@@ -676,9 +678,29 @@ Definition cdist (w : wst) : nat :=
 Definition is_caller (i : nat) (l : label) : bool :=
   match caller_of l with Some j => Nat.eqb j i | None => false end.
 
+Lemma done_step s l s' i r :
+  step true l s = Some s' -> wts s i = ADone r -> exists r', wts s' i = ADone r'.
+Proof.
+  intros H Hd.
+  destruct l; step_inv H; cbn [wts set_w set_p set_wts remove_entry] in *; bool_hyps; eauto;
+    try (unfold notify; rewrite Hd; eauto);
+    unfold upd; destruct (Nat.eqb_spec i i0); try subst i0; eauto; try congruence.
+Qed.
+
+Lemma done_run tr : forall s s' i r,
+  run true tr s = Some s' -> wts s i = ADone r -> exists r', wts s' i = ADone r'.
+Proof.
+  induction tr as [|l tr IH]; cbn; intros s s' i r H Hd.
+  - injection H as <-. eauto.
+  - destruct (step true l s) as [s1|] eqn:Hs; [|discriminate].
+    destruct (done_step _ _ _ _ _ Hs Hd) as [r1 Hd1]. eauto.
+Qed.
+
 Lemma caller_step s l s' i :
   step true l s = Some s' -> passed (wts s i) = true ->
-  if is_caller i l then cdist (wts s' i) < cdist (wts s i) else wts s' i = wts s i.
+  if is_caller i l
+  then cdist (wts s' i) < cdist (wts s i) \/ exists r, wts s i = ADone r
+  else wts s' i = wts s i.
 Proof.
   intros H Hp.
   destruct l; unfold is_caller; cbn [caller_of];
@@ -687,6 +709,8 @@ Proof.
     try (unfold notify; destruct (wts s i) as [| | | |e' [|]| | | | |]; try discriminate Hp; reflexivity);
     unfold upd; destruct (Nat.eqb_spec i0 i); try subst i0;
     try (destruct (Nat.eqb_spec i i0); [congruence|]); try rewrite Nat.eqb_refl; try reflexivity;
+    try (right; eexists; eassumption);
+    left;
     try (match goal with Hw : wts _ i = _ |- _ => rewrite Hw in *; try discriminate Hp end);
     try (destruct got); cbn; try lia; try reflexivity.
   destruct notified; [lia|discriminate Hp].
@@ -702,8 +726,11 @@ Proof.
   - cbn in H. destruct (step true l s) as [s1|] eqn:Hs; [|discriminate].
     pose proof (caller_step _ _ _ i Hs Hp) as Hk. pose proof (passed_step _ _ _ i Hs Hp) as Hp1.
     unfold count_l in Hc. cbn [filter] in Hc.
-    apply (IH s1 s' i H Hp1). unfold count_l.
-    destruct (is_caller i l); [cbn [length] in Hc; lia|rewrite Hk; exact Hc].
+    destruct (is_caller i l).
+    + destruct Hk as [Hk|[r Hr]].
+      * apply (IH s1 s' i H Hp1). unfold count_l. cbn [length] in Hc. lia.
+      * destruct (done_step _ _ _ _ _ Hs Hr) as [r1 Hr1]. eapply done_run; eauto.
+    + apply (IH s1 s' i H Hp1). unfold count_l. rewrite Hk. exact Hc.
 Qed.
 
 (** example runs used for the non-vacuity examples of [Props] *)
